@@ -2,6 +2,7 @@ import TucanProofs.Lemmas.RejectKind
 import TucanProofs.Lemmas.Sentence
 import TucanProofs.Lemmas.ParserDenotation
 import TucanProofs.Lemmas.AcceptIff
+import TucanProofs.Lemmas.TablesPin
 import TucanProofs.Lemmas.MoreExamples
 /-!
 # C10 — the parser accepts exactly the grammar; every rejection is the parser's own exception
